@@ -451,6 +451,36 @@ func checkC09(c *core.Ctx) {
 		})
 	}
 
+	// rank-4 operands: batch-dimension logic of MatMul / Dot / broadcasting
+	// beyond rank 3, every pair of batch shapes over {1,2,3}^2
+	for _, ba := range enum.Shapes(2, []int{1, 2, 3})[4:] {
+		ba := ba
+		group(fmt.Sprintf("binary4/%v", ba), func(tc *totalCtx) string {
+			for _, bb := range enum.Shapes(2, []int{1, 2, 3})[4:] {
+				for _, tail := range [][2][]int{{{2, 2}, {2, 2}}, {{2, 3}, {3, 2}}, {{1, 2}, {2, 1}}, {{2, 2}, {3, 2}}} {
+					sa := append(ref.CopyShape(ba), tail[0]...)
+					sb := append(ref.CopyShape(bb), tail[1]...)
+					t := rt.Make(enum.Generic(sa, 3, 0.5, 2, true), true)
+					u := rt.Make(enum.Generic(sb, 4, 0.5, 2, true), true)
+					for _, k := range []string{"MatMul", "Dot", "Add", "Mul", "ElMax", "Eq"} {
+						op := ref.Op{K: k}
+						valid := vInvalid
+						var shape []int
+						if sh, ok := ref.ResultShape(op, [][]int{sa, sb}); ok {
+							valid, shape = vValid, sh
+						}
+						if m := tc.call(fmt.Sprintf("%s(%v) on %v", k, sb, sa), valid, shape, []tensor.Tensor{t, u}, func() (tensor.Tensor, error) {
+							return rt.Apply(op, []tensor.Tensor{t, u})
+						}); m != "" {
+							return m
+						}
+					}
+				}
+			}
+			return ""
+		})
+	}
+
 	/* ---- constructors ---- */
 	dimLists := intLists(c09DimVals, 4)
 	if c.Thorough() {
